@@ -85,7 +85,8 @@ def oracle(p, r):
                 return (f'cast_to_{NAMES[t]}:wrap', f'{v!r} -> {r!r}, two\'s-complement wrap is {want}')
         return None
     if t in WIDTH and f == STRING and isinstance(v, str):
-        if re.fullmatch(r'[+-]?\d+', v):
+        # surrounding blanks do not stop a string from holding a decimal integer (Spark trims them, as int() does)
+        if re.fullmatch(r'[ \t\n\r\f\v]*[+-]?\d+[ \t\n\r\f\v]*', v):
             z = int(v)
             lo, hi = -(1 << (WIDTH[t] - 1)), (1 << (WIDTH[t] - 1)) - 1
             want = z if lo <= z <= hi else None
